@@ -23,6 +23,7 @@ from itertools import groupby
 from operator import itemgetter
 import numpy as np
 import pickle
+from copy import copy
 from datetime import timedelta
 from bitcoinlib.db import *
 from bitcoinlib.encoding import *
@@ -580,14 +581,14 @@ class WalletKey(object):
 
         :return WalletKey:
         """
-        pub_key = self
+        pub_key = copy(self)
         pub_key.is_private = False
         pub_key.key_private = None
-        if self.key():
-            pub_key.wif = self.key().wif()
-        if self._hdkey_object:
-            self._hdkey_object = pub_key._hdkey_object.public()
-        self._dbkey = None
+        hdkey = self.key()
+        if hdkey:
+            pub_key.wif = hdkey.wif()
+            pub_key._hdkey_object = hdkey.public()
+        pub_key._dbkey = None
         return pub_key
 
     def as_dict(self, include_private=False):
